@@ -74,6 +74,9 @@ def make_format(config, explicit_skip=False):
 def draw_table(rng, config):
     delimiter, quote, escape, _, _ = config
     alphabet = [delimiter, quote, escape, " ", "\r", "\n", "x", "x", "ü", "\r\n"]
+    if rng.random() < 0.3:
+        # characters that str.splitlines() takes for line breaks but that are ordinary data in delimited files
+        alphabet += ["\x0b", "\x0c", "\x1c", "\x85", "\u2028"]
     table = []
     columns = rng.randint(1, 4)
     for _ in range(rng.randint(0, 5)):
@@ -95,6 +98,7 @@ def generate(seed, tier):
         width = max(len(row) for row in table)
         table = [row + ["x"] * (width - len(row)) for row in table]
     return {"io": simfs.IoConfig.draw(swarm), "config": config, "table": table, "via": via,
+            "one_shot_rows": swarm.random() < 0.5,
             "explicit_skip": swarm.random() < 0.5,
             "target": swarm.choice(["stream", "path"]), "source": swarm.choice(["stream", "path"])}
 
@@ -147,7 +151,7 @@ def cid_for(config, width, explicit_skip):
     return lib.call(lib.load_cid, rows)
 
 
-def round_trip_validio(cid, table, fs, target, source):
+def round_trip_validio(cid, table, fs, target, source, one_shot=False):
     """Write through cutplace.Writer and read back through cutplace.rows under the same Cid."""
     import cutplace
 
@@ -159,8 +163,11 @@ def round_trip_validio(cid, table, fs, target, source):
     def write():
         writer = cutplace.Writer(cid, actual_target)
         try:
-            for row in table:
-                writer.write_row(list(row))
+            if one_shot:
+                writer.write_rows(iter([list(row) for row in table]))  # any iterable of rows, also a one-shot one
+            else:
+                for row in table:
+                    writer.write_row(list(row))
         finally:
             writer.close()
 
@@ -281,7 +288,8 @@ def execute(scenario):
             cid_status, cid = cid_for(config, len(table[0]), scenario.get("explicit_skip", False))
             if cid_status == "exc":
                 raise core.Violation("loader-accepts-format-but-cid-does-not", _features(config, table), repr(cid))
-            status, value = round_trip_validio(cid, table, fs, scenario["target"], scenario["source"])
+            status, value = round_trip_validio(cid, table, fs, scenario["target"], scenario["source"],
+                                               scenario.get("one_shot_rows", False))
             result.probe("via-validating-writer-and-reader")
         else:
             status, value = round_trip(data_format, table, fs, scenario["target"], scenario["source"])
